@@ -118,23 +118,12 @@ def modelStep (h : Holder) (ws : List String) : Holder × String :=
   | ["names"] => (h, namesLine h)
   | ["find", name] => (h, findByName h (nameOf name))
   | ["jitadd"] =>
-    -- JitRuntime::_add: flatten; (resolve_cross_section_fixups: nothing to do); code_size; alloc; relocate_to_base
-    -- (the base is the address of the allocated span, unknown to the model: the generator only issues `jitadd`
-    -- when there are no relocations, so that the base does not matter); copy; shrink.
-    let (h1, r) := flatten h
-    match r with
-    | .error e => (h1, "err " ++ e.name)
-    | .ok () =>
-      let est := codeSize h1
-      if est == 0 then (h1, "err NoCodeGenerated")
-      else
-        let (h2, r2, _red) := relocate h1 0
-        match r2 with
-        | .error e => (h2, "err " ++ e.name)
-        | .ok () =>
-          match jitCopy h2.secs (zeros est) with
-          | none => (h2, "FAULT")
-          | some img => (h2, "ok " ++ rle (img.take (codeSize h2)))
+    -- the base is the address of the allocated span, unknown to the model: the generator only issues `jitadd` when there
+    -- are no relocations, so that the base does not matter. The harness reads `code_size()` bytes of the installed image.
+    match jitAdd h 0 with
+    | (h', some (.ok img)) => (h', "ok " ++ rle (img.take (codeSize h')))
+    | (h', some (.error e)) => (h', "err " ++ e.name)
+    | (h', none) => (h', "FAULT")
   | _ => (h, "bad-op")
 
 /-! ### monitor mode -/
@@ -241,11 +230,15 @@ def judge (m : Mon) (op ans : List String) (pre post : Obs) : Mon × String :=
     | none => (m, "bad-op")
   | "reloc" :: _, "err" :: _ =>
     if decide (post.cs ≤ pre.cs) then base { m with flat := false } "good" else base m "BAD reloc-size code size grew in a failed relocation"
+  | "jitadd" :: _, ["err", "NoCodeGenerated"] =>
+    if post.cs == 0 then base { m with flat := false } "good"
+    else base m "BAD jit-refused JitRuntime::add says NoCodeGenerated although code_size() is not 0"
   | "jitadd" :: _, "ok" :: [img] =>
     match unrle img with
     | some o =>
       let want := (List.range post.cs).map (imageByte post.secs post.cs { padSection := true, padTarget := true } (fun _ => 0))
-      if o == want then base { m with flat := false } "good" else base m "BAD jit-image image placed by JitRuntime differs from the sections"
+      if post.cs == 0 then base m "BAD jit-empty JitRuntime::add returned kOk for an empty image"
+      else if o == want then base { m with flat := false } "good" else base m "BAD jit-image image placed by JitRuntime differs from the sections"
     | none => (m, "bad-op")
   | _, _ =>
     let m := match pre.at?, post.at? with
